@@ -137,7 +137,8 @@ end Q
 /-- mutable fields of a pending here-document redirect node -/
 structure RedirCell where
   pos : Span
-  heredoc : Option Node := none
+  /-- the body `makeheredoc` attached: span and value of the `heredoc` node -/
+  heredoc : Option (Span × Str) := none
   /-- `redirnode.output.word`: the raw delimiter token value -/
   delim : Str
   deriving Repr, Inhabited
